@@ -46,4 +46,10 @@ for sid in ids:
         else:
             subprocess.run(['git', '-C', '/repo', 'checkout', '--', '.'])
     print(sid, res[sid], flush=True)
-json.dump(res, open(V + '/seeded/_last_run.json', 'w'), indent=1)
+# merge into the record of earlier runs (one entry per seeded change: its latest run)
+try:
+    allres = json.load(open(V + '/seeded/_last_run.json'))
+except Exception:
+    allres = {}
+allres.update(res)
+json.dump(allres, open(V + '/seeded/_last_run.json', 'w'), indent=1, sort_keys=True)
